@@ -86,6 +86,14 @@ def make_specs(ctx):
             add(f'{fam}:own200:{rep}', cls, X)
             kind = univ.GENERIC_KINDS[(i + rep + ctx.seed) % len(univ.GENERIC_KINDS)]
             add(f'{fam}:{kind}:{rep}', cls, univ.generic_sample(rng, kind, int(rng.choice([6, 12, 30]))))
+        # large offset / tiny spread and tiny magnitudes: many distinct values that are "close" in floating point, never a constant column
+        for fam in ('gaussian', 'uniform', 'student_t', 'truncated'):
+            add(f'{fam}:bigoffset:{rep}', univ.FAM_CLASS[fam], univ.generic_sample(rng, 'bigoffset', 2000 if fam == 'gaussian' else 60))
+            add(f'{fam}:tiny:{rep}', univ.FAM_CLASS[fam], univ.generic_sample(rng, 'tiny', 40))
+        add(f'kde:bigoffset:{rep}', 'GaussianKDE', univ.generic_sample(rng, 'bigoffset', 9))
+        add(f'kde:tiny:{rep}', 'GaussianKDE', univ.generic_sample(rng, 'tiny', 12))
+        add(f'wrapper:bigoffset:{rep}', 'Univariate', univ.generic_sample(rng, 'bigoffset', 2000), {'candidates': ['GaussianUnivariate', 'GaussianKDE']}, np_seed=3)
+        add(f'wrapper:tiny:{rep}', 'Univariate', univ.generic_sample(rng, 'tiny', 40), {'parametric': 'PARAMETRIC'}, np_seed=3)
         add(f'uniform:dyadic:{rep}', 'UniformUnivariate', univ.generic_sample(rng, 'dyadic', 9))
         add(f'gaussian:dyadic:{rep}', 'GaussianUnivariate', univ.generic_sample(rng, 'dyadic', 9))
         # truncation bounds given / partly given
@@ -156,6 +164,9 @@ def search_model(ctx, label, spec, m, hits):
         if r:
             report(f'search:{r["key"]}:{fam}', r['what'], r, 'point_mass', [float(X[0])])
         return
+    r = O.not_degenerate(m)
+    if r:
+        report(f'search:{r["key"]}:{fam}', r['what'] + f' (n = {len(X)}, {len(np.unique(X))} distinct values in [{X.min()!r}, {X.max()!r}])', r, 'not_degenerate', [])
     sd, lo, hi = float(np.std(X)), float(X.min()), float(X.max())
     if fam == 'kde':
         D = np.ravel(np.asarray(k._params['dataset'], dtype=float))
